@@ -21,6 +21,7 @@ installs inbound::TimeoutLayer(config.inbound_request_timeout()) as the outermos
 outbound::TimeoutLayer(config.outbound_request_timeout()) in both branches of the user-layer choice,
 that the layer reaches every Peer and that Peer::call applies it on every call with do_rpc only
 reachable through it.
+Every user of try_parse_timeout absorbs its error (an unparsable header is 'absent', never a failed request); Config accessors are pure projections of their own field.
 """
 TRUSTED = ["tokio::time::sleep fires no earlier than its duration", "tower ServiceBuilder/Stack layer order (first added = outermost)",
            "str::parse::<u64> rejects non-numeric and overflowing input"]
